@@ -192,6 +192,11 @@ var templates = []func(u string) string{
 		return "rec(make([]float32, 1))\nrec(make(float32))\nmake(type uint32, w0)\nrec(make([]uint32, 1))\nfunc() { make(type uint, w0); rec(make([]uint, 1)) }()\nrec(make([]uint, 1))\nrec(make(map[string]float32))"
 	},
 	func(u string) string {
+		// giving a struct shape a name is this environment's business: other environments keep seeing the shape
+		return "" +
+			"make(type Zn" + u + ", make(struct { Zq int64, Zr string }))\nzv" + u + " = make(Zn" + u + ")\nzv" + u + ".Zq = base\nrec(zv" + u + ".Zq)\nrec(typeOf(make(struct { Zq int64, Zs string })))"
+	},
+	func(u string) string {
 		// values derived from a literal are the run's own: writing into them must not reach the literal
 		return "bs" + u + " = toByteSlice(\"qdraft\")\nbs" + u + "[0] = toByteSlice(\"X\")[0]\nrec(toString(bs" + u + "))\nrec(\"qdraft\")\nrs" + u + " = toRuneSlice(\"rdraft\")\nrs" + u + "[0] = toRuneSlice(\"Y\")[0]\nrec(toString(rs" + u + "))\nrec(\"rdraft\")\n" +
 			"rn" + u + " = import(\"math/rand\")\nfunc() {\nx = rn" + u + ".Intn(10)\nrec(x >= 0 && x < 10)\ny = rn" + u + ".Float64()\nrec(y < 1)\n}()"
@@ -230,7 +235,9 @@ func Render(w *Work) string {
 		parts = append(parts, templates[t%len(templates)](strconv.Itoa(i)))
 	}
 	if w.ErrTail {
-		parts = append(parts, "rec(\"before-error\")\nundefinedName + 1")
+		// (two defined names are equally close to the undefined one: what the error says must not depend on which of
+		// them a map iteration meets first)
+		parts = append(parts, "undefinedName1 = 1\nundefinedName2 = 2\nrec(\"before-error\")\nundefinedName + 1")
 	} else {
 		parts = append(parts, "base + 1")
 	}
@@ -616,7 +623,7 @@ const globalsSrc = "r = []\nr += 4095 + 0\nr += 4095 + 1\nr += -1 + 0\nr += -2 +
 	"up = import(\"strings\").ToUpper\nlo = import(\"strings\").ToLower\ns = import(\"strings\")\ns.ToUpper = func(a) { return \"hacked\" }\nt = import(\"strings\")\n" +
 	"q = []\nq += t.ToUpper(\"y\") == up(\"y\")\nq += s.ToUpper(\"y\") == \"hacked\"\n" +
 	"import(\"strings\").ToLower = func(a) { return \"hacked\" }\nq += import(\"strings\").ToLower(\"Z\") == lo(\"Z\")\n" +
-	"sm = make(struct { N string, T map[string]int64 })\nr += len(sm.T)\nsm.T[\"k\"] = 1\nsm.N = \"w\"\nsn = make(struct { N string, T map[string]int64 })\nr += len(sn.T)\nr += sn.N\n" +
+	"r += typeOf(make(struct { Zq int64, Zr string }))\nr += typeOf([make(struct { Zq int64, Zr string })])\nsm = make(struct { N string, T map[string]int64 })\nr += len(sm.T)\nsm.T[\"k\"] = 1\nsm.N = \"w\"\nsn = make(struct { N string, T map[string]int64 })\nr += len(sn.T)\nr += sn.N\n" +
 	// methods and fields reached through values of one type that differ in how they are held (variable,
 	// loop variable, pointer): whatever resolving a member remembers must not depend on who asked first
 	"bb = import(\"bytes\")\nb1 = make(bb.Buffer)\nb1.WriteString(\"hello\")\nr += b1.String()\nfor b2 in [make(bb.Buffer)] { b2.WriteString(\"x\"); r += b2.String() }\nb3 = new(bb.Buffer)\nb3.WriteString(\"again\")\nr += b3.String()\nr += b1.Len()\n" +
